@@ -125,6 +125,15 @@ reg("C13", "exploration",
     BASE_NOTE + "Policy automaton calibrated against the documentation (Event: write-only, Constant: immutable, ReadOnly: one defining assignment ...).",
     "DESIGN.md 3/C13")
 
+reg("C14", "exploration",
+    "Hypothesis (state history, copy mode) round-trip with liveness probes on the copy + exhaustive (definition kind x route) round-trip of trait definition objects in crash-isolated workers",
+    "objects: states reached by generated histories (nested containers to depth 3, Instance graph, transient/ReadOnly/"
+    "copy-metadata traits, observed Property, @observe method, prototyped local value) copied by pickle protocols 0-5, deepcopy, "
+    "clone_traits(None/shallow/deep) and copy_traits; values, transients, non-sharing and liveness (validation at every depth, "
+    "items handlers, observers, property dependencies, write-once) are probed on the copy. defs: all 46 definition kinds x "
+    "pickle/copy/deepcopy, the round-tripped CTrait must validate/default/get/set like the original. Sampling for objects.",
+    BASE_NOTE, "DESIGN.md 3/C14")
+
 
 def main():
     props = [json.loads(l) for l in open(os.path.join(ROOT, "properties.jsonl"))]
